@@ -333,12 +333,16 @@ pub fn c06(tier: Tier) -> ! {
                 if conv.is_some() && !(inner <= 2 && (kt == 0. || kt == 1e300)) {
                     continue;
                 }
-                for &ms in [1., 0.5, 0.01].iter() {
+                for &ms in [1., 0.5, 0.01, 2e-16].iter() {
                     for (pi, pat) in patterns().into_iter().enumerate() {
                         if tier == Tier::Quick && (pi + n + steps as usize) % 2 == 1 {
                             continue;
                         }
-                        for spec in [ProbeSpec::standard(n), ProbeSpec::interior(n), ProbeSpec::standard(n).raw(), ProbeSpec::outside(n)].iter() {
+                        for spec in [ProbeSpec::standard(n), ProbeSpec::interior(n), ProbeSpec::standard(n).raw(), ProbeSpec::outside(n), ProbeSpec::near_bound(n)].iter() {
+                            // (moves below machine epsilon only from starts where they are representable)
+                            if ms == 2e-16 && spec.start != ProbeSpec::near_bound(n).start && spec.start != ProbeSpec::interior(n).start {
+                                continue;
+                            }
                             jobs.push(Job {
                                 cfg: Cfg { steps: if conv.is_some() { steps.max(8) } else { steps }, inner, kt_start: kt, kt_finish: fin, kt_ratio: ratio, max_step: ms, convergence: conv, history: 0 },
                                 spec: spec.clone(),
@@ -356,9 +360,33 @@ pub fn c06(tier: Tier) -> ! {
         }
     }
     let plain_jobs = jobs.clone();
-    let jobs = with_builder_histories(jobs, 7);
+    let mut jobs = with_builder_histories(jobs, 7);
+    // long jammed loops: several hundred rejections in a row inside one loop, then another loop
+    // (the baseline script only; a shortcut taken after a long streak shows in the second loop)
+    for &(steps, inner) in [(1100u64, 550u64), (1300, 650), (2100, 1050)].iter() {
+        for n in 2..=3usize {
+            for pat in [vec![None], vec![None, None, None, None, None, None, Some(0.)]].iter() {
+                jobs.push(Job {
+                    cfg: Cfg { steps, inner, kt_start: 0., kt_finish: None, kt_ratio: Some(0.), max_step: 0.01, convergence: None, history: 0 },
+                    spec: ProbeSpec::interior(n),
+                    pattern: pat.clone(),
+                    default_q: 0.75,
+                    max_dev: 0,
+                    product_depth: 0,
+                    ladder_depth: 0,
+                });
+            }
+        }
+    }
     let judge = |_cfg: &Cfg, _spec: &ProbeSpec, _s: &[StepScript], obs: &Obs, an: &Analysis| -> Vec<(Option<&'static str>, String)> {
         let mut v = vec![];
+        // a proposal without a score cannot become the current state in any reading (there is no
+        // score to carry on with): when every consistent history needs one to have been taken
+        // over, a rejected move left its trace
+        if an.not_derived_at.is_none() && an.flags_all & F_NONE_ACCEPTED != 0 {
+            v.push((None, format!("after a proposal without a score (first at step {}) the run continues from the proposed state, not from the state before it: the rejected move was not undone", an.first_flag_step)));
+            return v;
+        }
         if obs.panic.is_some() {
             return v;
         }
@@ -478,7 +506,7 @@ pub fn c07(tier: Tier) -> ! {
     let mut jobs = vec![];
     for n in 2..=3usize {
         for &(steps, inner) in steps_grid(tier).iter() {
-            for &(kt, fin, ratio) in [(0., None, Some(0.)), (0., None, Some(0.5)), (0.1, None, Some(0.)), (1., None, Some(0.5)), (0.5, Some(0.05), None), (1e-3, None, None)].iter() {
+            for &(kt, fin, ratio) in [(0., None, Some(0.)), (0., None, Some(0.5)), (0.1, None, Some(0.)), (1., None, Some(0.5)), (0.5, Some(0.05), None), (1e-3, None, None), (f64::INFINITY, None, Some(0.))].iter() {
                 for (pi, pat) in patterns().into_iter().enumerate() {
                     if tier == Tier::Quick && (pi + n + steps as usize) % 2 == 1 {
                         continue;
@@ -536,6 +564,14 @@ pub fn c07(tier: Tier) -> ! {
     let ds = [1e-6, 1e-3, 0.05, 0.1, 0.5, 1., 5.];
     let kts = [1e-3, 0.01, 0.1, 0.5, 1., 10.];
     let mut meas = vec![];
+    // unlikely but possible acceptances: d/kT between 11 and 34 (probabilities 1e-5 .. 1e-15)
+    for &kt in [0.01, 1.].iter() {
+        for &r in [11., 12.5, 16., 20., 24., 30., 34.].iter() {
+            for &(steps, inner, t) in [(4u64, 4u64, 1usize), (4, 4, 3)].iter() {
+                meas.push((kt * r, kt, steps, inner, t, 2));
+            }
+        }
+    }
     for &d in ds.iter() {
         for &kt in kts.iter() {
             for &(steps, inner, t) in [(4u64, 4u64, 1usize), (4, 4, 2), (4, 4, 4), (6, 3, 3)].iter() {
@@ -600,7 +636,8 @@ pub fn c07(tier: Tier) -> ! {
                     interior += 1;
                 }
                 // p is the smallest rejected threshold: surface in (p - 2^-53, p]
-                if !((p - want).abs() <= 1e-12 + 2f64.powi(-52)) {
+                // (relative: a cut-off of very small probabilities must show)
+                if !((p - want).abs() <= 1e-9 * want + 2f64.powi(-52)) {
                     run.fail(None, &format!("a move worse by {} at kT={} is accepted iff u < {:e}, the Metropolis rule says exp(-d/kT) = {:e}", d, kt, p, want), case);
                 }
                 if i % 97 == 0 {
@@ -691,7 +728,7 @@ pub fn c05(tier: Tier) -> ! {
     setter_orders(&mut run, &pick_for_setter_orders(&c05_jobs(tier), tier.pick(8, 32)), &judge);
     // real hard and LJ states: every stage of a chained-stage search re-run as a pure hill climb
     let sweep_cfg = crate::rsx::Sweep { depth: tier.pick(2, 4), cap: tier.pick(400, 20_000), dense_steps: 300, shapes: crate::rsx::start_shapes(tier) };
-    let (rf, rstarts) = crate::rsx::sweep(&sweep_cfg, &crate::rsx::Wants { c01: false, c04: false, c05: true, c08: false });
+    let (rf, rstarts) = crate::rsx::sweep(&sweep_cfg, &crate::rsx::Wants { c01: false, c04: false, c05: true, c08: false, c19: false });
     for (w, c) in rf.c05 {
         run.fail(None, &w, c);
     }
@@ -750,6 +787,29 @@ pub fn c19(tier: Tier) -> ! {
             }
         }
     }
+    // with a convergence threshold the loops below it (fewer than six in a row, the run goes on)
+    // adapt the step like any other loop
+    for n in 1..=2usize {
+        for &(steps, inner) in [(10u64, 2u64), (6, 1), (12, 3)].iter() {
+            for &conv in [1e6, 1e-3].iter() {
+                for &ms in [0.01, 0.1].iter() {
+                    for pat in patterns().into_iter() {
+                        for &q in [0., 0.75].iter() {
+                            jobs.push(Job {
+                                cfg: Cfg { steps, inner, kt_start: 0., kt_finish: None, kt_ratio: Some(0.), max_step: ms, convergence: Some(conv), history: 0 },
+                                spec: ProbeSpec::interior(n),
+                                pattern: pat.clone(),
+                                default_q: q,
+                                max_dev: 1,
+                                product_depth: 0,
+                                ladder_depth: 0,
+                            });
+                        }
+                    }
+                }
+            }
+        }
+    }
     let plain_jobs = jobs.clone();
     let jobs = with_builder_histories(jobs, 9);
     let judge = |cfg: &Cfg, spec: &ProbeSpec, _s: &[StepScript], obs: &Obs, an: &Analysis| -> Vec<(Option<&'static str>, String)> {
@@ -772,6 +832,17 @@ pub fn c19(tier: Tier) -> ! {
     };
     let t = run_jobs(&mut run, &jobs, &judge);
     setter_orders(&mut run, &pick_for_setter_orders(&plain_jobs, tier.pick(8, 32)), &judge);
+    // real hard and LJ crystal states: every proposal of a chained-stage search (engine rsx, every
+    // valid proposal accepted so the parent of each proposal is known) against the same bound,
+    // with the ranges the property declares for cell, site and orientation parameters
+    let sweep_cfg = crate::rsx::Sweep { depth: tier.pick(2, 4), cap: tier.pick(150, 10_000), dense_steps: 300, shapes: crate::rsx::start_shapes(tier) };
+    let (rf, rstarts) = crate::rsx::sweep(&sweep_cfg, &crate::rsx::Wants { c01: false, c04: false, c05: false, c08: false, c19: true });
+    for (w, c) in rf.c19 {
+        run.fail(None, &w, c);
+    }
+    run.set("real_state_starts", rstarts);
+    run.set("real_states_visited", rf.states);
+    run.set("real_state_moves_measured", rf.moves_measured);
     run.set("max_deviations", tier.pick(1, 2) as u64);
     run.set("exhaustive", true);
     run.set("explanation", "Rejection histories from 0 % to 100 % per loop (4 baseline patterns and every departure of at most max_deviations fields from them), 1..12 inner loops, 7 maximum step sizes (1e-6 .. 1.5), constant, cooling and heating schedules, 3 parameter ranges, extreme and moderate displacement draws, interior start values so that clamping cannot mask a move. Every proposal must differ from a state the run can be in by one parameter and by at most max_step_size * range / 2.");
@@ -1069,6 +1140,11 @@ pub fn c18(tier: Tier) -> ! {
     let n_orders = tier.pick(8, 40);
     let picked: Vec<Cfg> = pool.iter().step_by((pool.len() / n_orders).max(1)).take(n_orders).cloned().chain(cfgs.iter().filter(|c| c.history == 0 && c.reachable_by_setters() && c.inner == 1000 && c.kt_start > 0.).step_by(7).take(3).cloned()).collect();
     c18_setter_orders(&mut run, &picked);
+    // the command line's own pipeline, in-process on a recording state: the requested temperature
+    // reaches its annealing stage
+    let pipes = crate::pipe::requested_temperature_reaches_the_pipeline(&mut run);
+    crate::cli::cleanup();
+    run.set("in_process_pipelines_on_a_recording_state", pipes);
     std::panic::set_hook(prev_hook);
     let mut measured = 0u64;
     let mut replays = 0u64;
@@ -1154,14 +1230,46 @@ pub fn c20_library(run: &mut Run, tier: Tier) -> LibC20 {
             }
         }
     }
+    // slowly falling scores at a temperature that accepts them (every loop "improves" by a small
+    // negative amount): thresholds at and below zero are thresholds too
+    let mut falling: Vec<Cfg> = vec![];
+    for &(steps, inner) in [(12u64, 1u64), (16, 2), (9, 1)].iter() {
+        for &conv in [Some(0.), Some(-1e-12), Some(-1.), Some(1e-3), Some(f64::INFINITY)].iter() {
+            falling.push(Cfg { steps, inner, kt_start: 0.1, kt_finish: None, kt_ratio: Some(0.), max_step: 0.01, convergence: conv, history: 0 });
+        }
+    }
+    let mut falling_runs = 0u64;
+    for cfg in falling.iter() {
+        let spec = ProbeSpec::interior(2);
+        let script: Vec<StepScript> = (1..=cfg.steps as usize).map(|t| StepScript { index: (t - 1) % 2, q: 0.75, thr_k: thr_k_of(0.5), answer: Some(-1e-9 * t as f64) }).collect();
+        let obs = run_script(cfg, &spec, &script);
+        let full = run_script(&Cfg { convergence: None, ..cfg.clone() }, &spec, &script);
+        falling_runs += 2;
+        let case = case_json(cfg, &spec, &script);
+        if obs.panic.is_some() || full.panic.is_some() {
+            run.fail(None, &format!("optimiser panicked: {:?}", obs.panic.or(full.panic)), case);
+            continue;
+        }
+        let thr = cfg.convergence.unwrap();
+        let ie = cfg.inner_eff() as usize;
+        // every loop "improves" by -1e-9 * inner: below the threshold iff thr > that
+        let expect_exit = -1e-9 * (ie as f64) < thr;
+        let want = if expect_exit { (6 * ie).min(full.proposals.len()) } else { full.proposals.len() };
+        if obs.proposals.len() != want {
+            run.fail(None, &format!("scores falling by 1e-9 per step at kT = 0.1, threshold {}: {} proposals evaluated, {} expected (exit after six consecutive loops below the threshold: {})", thr, obs.proposals.len(), want, expect_exit), case);
+        }
+    }
+    run.set("falling_score_runs", falling_runs);
     let prev_hook = std::panic::take_hook();
     std::panic::set_hook(Box::new(|_| {}));
     let jobs: Vec<(Cfg, Vec<Option<f64>>, usize)> = jobs.into_iter().enumerate().map(|(i, (c, p))| (c, p, i)).collect();
     let outs = par_map(&jobs, |_, (cfg, pat, ji)| {
         // mostly interior starts; every seventh job starts outside the declared ranges, every
-        // eleventh has a parameter whose lower limit lies above the upper one
-        let spec = if ji % 11 == 5 { ProbeSpec::inverted(2) } else if ji % 7 == 3 { ProbeSpec::outside(2) } else { ProbeSpec::interior(2) };
-        let alpha = Alphabet::standard(2).with_pattern(pat.clone());
+        // eleventh has a parameter whose lower limit lies above the upper one, every fifth starts
+        // three units in the last place inside the lower limits
+        let spec = if ji % 11 == 5 { ProbeSpec::inverted(2) } else if ji % 7 == 3 { ProbeSpec::outside(2) } else if ji % 5 == 1 { ProbeSpec::near_bound(2) } else { ProbeSpec::interior(2) };
+        // (from a start next to the lower limits the moves go down, onto the limits)
+        let alpha = Alphabet { default_q: if ji % 5 == 1 && ji % 11 != 5 && ji % 7 != 3 { 0. } else { 0.75 }, ..Alphabet::standard(2).with_pattern(pat.clone()) };
         let len = cfg.steps as usize;
         let mut fails: Vec<(String, Value)> = vec![];
         let mut runs = 0u64;
@@ -1216,6 +1324,30 @@ pub fn c20_library(run: &mut Run, tier: Tier) -> LibC20 {
                     fail("the run with a convergence threshold is not a prefix of the run without it".to_string());
                     return;
                 }
+                if obs.proposals.len() == full.proposals.len() {
+                    // it went the whole way: then no six consecutive inner loops before the last
+                    // one each improved by less than the threshold
+                    let iel = cfg.inner_eff() as usize;
+                    let loops = obs.proposals.len() / iel;
+                    let an = analyse(cfg, &obs, None);
+                    if an.unique_word.is_some() && loops > 6 {
+                        let thr = cfg.convergence.unwrap();
+                        let s0 = obs.initial.as_ref().and_then(|i| i.1).unwrap_or(f64::NAN);
+                        let at = |l: usize| if l == 0 { s0 } else { an.score_trace[l * iel - 1] };
+                        let mut streak = 0;
+                        for l in 0..loops - 1 {
+                            if at(l + 1) - at(l) < thr {
+                                streak += 1;
+                                if streak > 5 {
+                                    fail(format!("inner loops {}..{} each improved the score by less than the threshold {} but the run went on to its last step", l - 4, l + 1, thr));
+                                    break;
+                                }
+                            } else {
+                                streak = 0;
+                            }
+                        }
+                    }
+                }
                 if obs.proposals.len() < full.proposals.len() {
                     early += 1;
                     let iel = cfg.inner_eff() as usize;
@@ -1268,7 +1400,15 @@ pub fn c20_library(run: &mut Run, tier: Tier) -> LibC20 {
 
 pub fn c20(tier: Tier) -> ! {
     let mut run = Run::new("C20", tier, "model_checking");
-    let lib = c20_library(&mut run, tier);
+    let mut lib = c20_library(&mut run, tier);
+    // the same grid again with every log statement of the crate switched on (formatted, discarded)
+    logging(true);
+    let lib2 = c20_library(&mut run, tier);
+    logging(false);
+    lib.runs += lib2.runs;
+    lib.steps += lib2.steps;
+    lib.prefix_checks += lib2.prefix_checks;
+    lib.early_exits += lib2.early_exits;
     let cli = crate::cli::c20_cli(&mut run, tier);
     run.set("configurations", lib.jobs as u64);
     run.set("states", lib.distinct);
